@@ -775,15 +775,15 @@ func rulePrimaryField(c *RC) *RuleResult {
 	}
 	for _, s := range ws {
 		r.Sites++
-		if s.Fn != c.A.epochWriter {
+		if !c.inEpoch(s.Fn) {
 			r.fail(s.Fn.Name+"/write:ctx.PrimaryIndex", c.Prog.Pos(s.Node), "PrimaryIndex assigned outside the epoch writer")
 			continue
 		}
-		want := "fn:Context.GetPrimaryIndex(p:" + c.A.epochViewParm.Name() + ")"
+		want := "fn:Context.GetPrimaryIndex(<view parameter>)"
 		good := len(s.Snaps) > 0
 		got := ""
 		for _, sn := range s.Snaps {
-			if sn.Val == nil || sn.Val.S != want {
+			if sn.Val == nil || sn.Val.K != KCall || sn.Val.Name != "fn:Context.GetPrimaryIndex" || len(sn.Val.Args) != 1 || sn.Val.Args[0].K != KParam || !c.isViewParam(s.Fn, sn.Val.Args[0]) {
 				good = false
 				if sn.Val != nil {
 					got = sn.Val.S
@@ -812,4 +812,29 @@ func rulePrimaryField(c *RC) *RuleResult {
 		}
 	}
 	return r
+}
+
+// isViewParam: the parameter term is the view of the epoch being entered: the epoch writer's own view parameter, or a
+// helper's parameter that receives it at the helper's (single) call site.
+func (c *RC) isViewParam(fn *FuncInfo, p *Term) bool {
+	if fn == c.A.epochWriter {
+		return p.S == "p:"+c.A.epochViewParm.Name()
+	}
+	for _, cs := range c.A.callers[fn] {
+		if !c.inEpoch(cs.Fn) {
+			return false
+		}
+		for i, fp := range fn.Params {
+			if "p:"+fp.Name() != p.S {
+				continue
+			}
+			for _, sn := range cs.Snaps {
+				if i >= len(sn.Args) || sn.Args[i].K != KParam || !c.isViewParam(cs.Fn, sn.Args[i]) {
+					return false
+				}
+			}
+			return true
+		}
+	}
+	return false
 }
